@@ -11,6 +11,7 @@ import (
 
 	"github.com/CloudyKit/jet/v6"
 	"verifh/internal/fw"
+	"verifh/internal/jx"
 	"verifh/internal/prog"
 )
 
@@ -126,7 +127,7 @@ func c01n(tier string) int {
 }
 
 func c01run(c *fw.Ctx, idx int) {
-	if idx < len(c01directed) {
+	if idx < len(c01directed)+len(c01moreCases) {
 		c01runDirected(c, idx)
 		return
 	}
@@ -322,7 +323,85 @@ var c01directed = []struct{ name, src string }{
 	{"safewriter-first-then-jetfunc", `{{ unsafe: val1 | isset }}`},
 }
 
+// c01more: directed cases judged under the three escaper configurations.
+func c01more(c *fw.Ctx, idx int, which string) {
+	const val = `<v&'">`
+	c.Begin(idx, map[string]interface{}{"directed": which})
+	defer c.End()
+	tagEsc := jet.SafeWriter(func(w io.Writer, b []byte) { w.Write([]byte(c01hexTag(1, 2)(string(b)))) })
+	type cfgT struct {
+		name string
+		opts []jet.Option
+		esc  func(string) string
+	}
+	cfgs := []cfgT{{"nil-escaper", []jet.Option{jet.WithSafeWriter(nil)}, func(s string) string { return s }},
+		{"default-html", nil, template.HTMLEscapeString}, {"tagging-escaper", []jet.Option{jet.WithSafeWriter(tagEsc)}, c01hexTag(1, 2)}}
+	switch which {
+	case "dump-is-a-value":
+		// what the dump built-in evaluates to is a value like any other (dump is no SafeWriter): escaped once
+		var raw string
+		for _, cf := range cfgs {
+			vars := jet.VarMap{}
+			vars.Set("val1", val)
+			res := jx.Run(map[string]string{"/t.jet": `[{{ dump("val1") }}]`}, "/t.jet", vars, nil, cf.opts...)
+			c.Eval(1)
+			if res.Failed() || len(res.Out) < 2 {
+				c.Violation("c01:dump:failed:"+cf.name, "", res.String())
+				return
+			}
+			inner := c01merge(res.Out[1 : len(res.Out)-1])
+			if cf.name == "nil-escaper" {
+				raw = inner
+				if !strings.Contains(raw, "<v&") {
+					c.Violation("c01:dump:harness", "", "dump output does not show the value: "+raw)
+					return
+				}
+				continue
+			}
+			if inner != cf.esc(raw) {
+				c.Violation("c01:dump:"+cf.name+":value-not-escaped-exactly-once", "", fmt.Sprintf("dump rendered %q; unescaped it is %q", c01short(inner), c01short(raw)))
+				return
+			}
+		}
+	case "execution-nested-inside-exec":
+		// an execution started (by a Go function) while another one is inside exec(): both escape their values as always
+		for _, cf := range cfgs {
+			set, _ := jx.NewSet(map[string]string{"/main.jet": `A{{ val1 }}|{{ exec("/sub.jet") }}|{{ val1 }}`, "/sub.jet": `{{ nested() }}{{ return val1 }}`, "/inner.jet": `I{{ val1 }}`}, cf.opts...)
+			nestedOut := "not run"
+			vars := jet.VarMap{}
+			vars.Set("val1", val)
+			vars.Set("nested", func() string {
+				r := jx.RunSet(set, "/inner.jet", jet.VarMap{}.Set("val1", val), nil)
+				nestedOut = r.String()
+				if !r.Failed() {
+					nestedOut = r.Out
+				}
+				return ""
+			})
+			res := jx.RunSet(set, "/main.jet", vars, nil)
+			c.Eval(2)
+			e := cf.esc(val)
+			if got, want := c01merge(nestedOut), "I"+e; got != want {
+				c.Violation("c01:nested-execution-inside-exec:"+cf.name, "", fmt.Sprintf("the nested execution rendered %q, want %q", got, want))
+				return
+			}
+			if got, want := c01merge(res.Out), "A"+e+"|"+e+"|"+e; res.Failed() || got != want {
+				c.Violation("c01:execution-around-exec:"+cf.name, "", fmt.Sprintf("rendered %s, want %q", res, want))
+				return
+			}
+		}
+	}
+	c.Count("directed_"+which, 1)
+	c.Distinct("directed|" + which)
+}
+
+var c01moreCases = []string{"dump-is-a-value", "execution-nested-inside-exec"}
+
 func c01runDirected(c *fw.Ctx, idx int) {
+	if idx >= len(c01directed) {
+		c01more(c, idx, c01moreCases[idx-len(c01directed)])
+		return
+	}
 	d := c01directed[idx]
 	c.Begin(idx, map[string]interface{}{"directed": d.name, "template": d.src})
 	defer c.End()
@@ -343,7 +422,7 @@ func init() {
 		Technique: "taint accounting on the output stream: generated programs executed under three Set escapers (default HTML, nil, tagging SafeWriter) and compared with the reference evaluator's escaped-exactly-once output",
 		Rule: "each case is a generated template set whose value sites render data of 15-17 kinds (string, named string, []byte, Stringer, error, *string, **string, []string, map, nil pointer, ints, bool, float, interface; every 10th case strings/[]byte of length 4096k±3 with specials on the print-buffer boundaries) built over an alphabet with < > & ' \" NUL and multi-byte runes; " +
 			"sites are plain actions or end in a SafeWriter (raw, unsafe, safeHtml, safeJs, a user tagging writer) in piped, prefix and call form, and sit at top level, in if/range, block definitions, yielded blocks, yield content, default content, included/extended/imported templates, try and catch bodies, exec'd templates (must not appear); " +
-			"oracle per escaper configuration: the real output equals literal text verbatim + escaper(value) for plain sites + writer(value) for SafeWriter sites (tags of one value merged), so unescaped, doubly escaped, truncated or reordered values and escaped text all show; 6 directed cases: a SafeWriter that is not the last command must be an error; " +
+			"oracle per escaper configuration: the real output equals literal text verbatim + escaper(value) for plain sites + writer(value) for SafeWriter sites (tags of one value merged), so unescaped, doubly escaped, truncated or reordered values and escaped text all show; 6 directed cases: a SafeWriter that is not the last command must be an error; 2 more: the value of dump() is escaped once, an execution nested (through a Go function) inside exec() escapes as always; " +
 			"non-trivial = a value site below at least one construct; distinct by (construct path of the site, writers/forms used)",
 		Assumptions: []string{"template.HTMLEscapeString/JSEscapeString equal the SafeWriters template.HTMLEscape/JSEscape on whole values", "Renderer values are out of scope (they render themselves)", "values sent through safeJs are shorter than the 4096-byte print buffer (rune-aware writer, DESIGN 2.4)"},
 		NCases:      c01n,
